@@ -74,6 +74,9 @@ def run_shard(spec, rec):
     for combo in R.long_lists(protos, random.Random(spec["seed"] + 31), 2):
         check_seq(R.instantiate(protos, combo), dict(sequence=list(combo)), rec, resolve_citations, maxp)
         rec.count("long_lists")
+    for combo in R.collision_sequences(random.Random(spec["seed"] + 57), 400):
+        check_seq(R.instantiate(protos, combo), dict(sequence=list(combo)), rec, resolve_citations, maxp)
+        rec.count("collision_sequences")
     rng = random.Random(spec["seed"])
     allk = list(protos)
     fulls = [k for k in allk if k.startswith("full")]
